@@ -863,7 +863,7 @@ def run(tier, seed):
                                 % len(_cond_cases()), True,
                                 "distinct (body, placement, loader); non-trivial = the body must be rejected",
                                 misc["parse"][1]),
-        grp.result("C19.group.expansion_equivalence", "C19",
+        grp.result("C19.group.expansion_equivalence", ["C19", "C04", "C07", "C10"],
                    "task_types/stdlib/run_experiment_group.py::run_experiment_group (through TaskLoader.parse_cond_file)",
                    "all experiment lists of length 0..%d over %d element kinds (default instance, two instances with "
                    "args/options/parallelizable, duplicate name, name equal to the group's, ill-typed args, invalid "
